@@ -153,17 +153,22 @@ class Interp:
                 env[n] = self.eval(defaults[i - first_default], env)
             else:
                 raise Raised("TypeError", (f"missing argument {n}",))
-        if isinstance(fn, ast.Lambda):
-            return self.eval(fn.body, env)
-        is_gen = any(isinstance(n, (ast.Yield, ast.YieldFrom)) for n in _walk_own(fn))
-        if is_gen:
-            # generator functions are run eagerly; the call evaluates to the list of yielded values
-            env["__yields__"] = []
+        stack = self.__dict__.setdefault("call_stack", [])
+        stack.append(fn)
         try:
-            self.exec_block(fn.body, env)
-        except _Return as r:
-            return env["__yields__"] if is_gen else r.v
-        return env["__yields__"] if is_gen else None
+            if isinstance(fn, ast.Lambda):
+                return self.eval(fn.body, env)
+            is_gen = any(isinstance(n, (ast.Yield, ast.YieldFrom)) for n in _walk_own(fn))
+            if is_gen:
+                # generator functions are run eagerly; the call evaluates to the list of yielded values
+                env["__yields__"] = []
+            try:
+                self.exec_block(fn.body, env)
+            except _Return as r:
+                return env["__yields__"] if is_gen else r.v
+            return env["__yields__"] if is_gen else None
+        finally:
+            stack.pop()
 
     # ------------------------------------------------------------------ statements
     def exec_block(self, body, env):
@@ -187,7 +192,28 @@ class Interp:
                 self.assign(st.target, self.eval(st.value, env), env)
         elif isinstance(st, ast.AugAssign):
             cur = self.eval(ast.copy_location(_load(st.target), st.target), env)
-            v = self.binop(st.op, cur, self.eval(st.value, env))
+            rhs = self.eval(st.value, env)
+            # in-place operators of the mutable builtins mutate the object every alias sees
+            if isinstance(cur, list) and isinstance(st.op, ast.Add) and isinstance(rhs, (list, tuple)):
+                cur.extend(rhs)
+                v = cur
+            elif isinstance(cur, list) and isinstance(st.op, ast.Mult) and isinstance(rhs, int) and not isinstance(rhs, bool):
+                cur[:] = cur * rhs
+                v = cur
+            elif isinstance(cur, dict) and isinstance(st.op, ast.BitOr) and isinstance(rhs, dict):
+                cur.update(rhs)
+                v = cur
+            elif isinstance(cur, set) and isinstance(st.op, ast.BitOr) and isinstance(rhs, (set, frozenset)):
+                cur |= rhs
+                v = cur
+            elif isinstance(cur, set) and isinstance(st.op, ast.Sub) and isinstance(rhs, (set, frozenset)):
+                cur -= rhs
+                v = cur
+            elif isinstance(cur, set) and isinstance(st.op, ast.BitAnd) and isinstance(rhs, (set, frozenset)):
+                cur &= rhs
+                v = cur
+            else:
+                v = self.binop(st.op, cur, rhs)
             self.assign(st.target, v, env)
         elif isinstance(st, ast.If):
             if self.truth(self.eval(st.test, env)):
@@ -230,9 +256,15 @@ class Interp:
             exc = st.exc
             if isinstance(exc, ast.Call):
                 nm = _dotted(exc.func)
-                args = tuple(self.eval(a, env) for a in exc.args)
-                raise Raised(nm or "?", args)
-            raise Raised(_dotted(exc) or "?", ())
+                if nm and nm.split(".")[-1].endswith(("Error", "Exception", "Warning", "Exit", "Interrupt")) or nm in ("StopIteration",):
+                    args = tuple(self.eval(a, env) for a in exc.args)
+                    raise Raised(nm, args)
+            v = self.eval(exc, env)
+            if isinstance(v, Record) and isinstance(v.fields.get("args"), tuple):
+                raise Raised(v.cls_name, v.fields["args"])
+            if isinstance(v, tuple) and len(v) == 2 and v[0] == "exc":
+                raise Raised(v[1], ())
+            raise AnalysisError(f"{self.name}:{st.lineno}: raise of a value that does not fold to an exception")
         elif isinstance(st, ast.Assert):
             if not self.truth(self.eval(st.test, env)):
                 raise Raised("AssertionError", ())
@@ -296,6 +328,20 @@ class Interp:
                 env[target.id] = v
         elif isinstance(target, (ast.Tuple, ast.List)):
             vs = list(self.iterate(v))
+            stars = [i for i, t in enumerate(target.elts) if isinstance(t, ast.Starred)]
+            if len(stars) > 1:
+                raise AnalysisError(f"{self.name}: two starred targets")
+            if stars:
+                si = stars[0]
+                after = len(target.elts) - si - 1
+                if len(vs) < len(target.elts) - 1:
+                    raise Raised("ValueError", ("not enough values to unpack",))
+                for t, x in zip(target.elts[:si], vs[:si]):
+                    self.assign(t, x, env)
+                self.assign(target.elts[si].value, list(vs[si:len(vs) - after]), env)
+                for t, x in zip(target.elts[si + 1:], vs[len(vs) - after:] if after else []):
+                    self.assign(t, x, env)
+                return
             if len(vs) != len(target.elts):
                 raise Raised("ValueError", ("unpack",))
             for t, x in zip(target.elts, vs):
